@@ -38,12 +38,10 @@ func showBytes(b []byte) string {
 	return fmt.Sprintf("%s (%d bytes)", lib.Hex(b), len(b))
 }
 
-// derive32 is peer.DeriveKey at 32 bytes, called directly.
+// derive32 is peer.DeriveKey at 32 bytes, called directly (on an `out` pre-filled with 0xAA).
 func derive32(k *key, ctx string, salt []byte) string {
-	return outcome(func() ([]byte, error) {
-		out := make([]byte, 32)
-		return out, peer.DeriveKey(ctx, salt, k.sk, out)
-	})
+	impl, _ := deriveRun(ctx, salt, k.sk, k.priv, 32, false)
+	return impl
 }
 
 func deriveEd(k *key, ctx string, salt []byte) string {
